@@ -140,7 +140,14 @@ def evaluate(case, rec, kinds, tpm_type=None, P=None, iff_value=False):
     """Strict decode vs reference; findings are attributed to the calling property when the reference's first
     problem is one of ``kinds``.  Returns (ref, trace, kind)."""
     ref = R.decode(case.t, case.d, cc=case.cc, enc=case.enc, strict=True, P=P)
-    t = TR.run(tpm_type or case.t, case.d, strict=True, cc=case.cc, enc=case.enc)
+    # every fifth decode is rooted somewhere else than '.': paths of events and errors must follow the root they are given
+    rooted = rec.evaluations % 5 == 3
+    t = TR.run(tpm_type or case.t, case.d, strict=True, cc=case.cc, enc=case.enc, rooted=rooted)
+    if rooted:
+        rec.count("rooted_decodes")
+        if t.root_escapes:
+            rec.violation("root-path", "path-outside-root", f"{case.short()}\ndecoded with root_path='.log.msg': {TR.pstr(t.root_escapes[0])} does not lie under that root "
+                                                            f"(outcome {t.outcome[0]})", dict(case.replay(), rooted=True))
     ref, t, kind, findings = oracles.strict_vs_ref(case, ref, t)
     rec.count(f"ref_{kind}")
     rec.count(f"got_{t.okind()}")
